@@ -15,7 +15,7 @@ CONSTANTS
   TreeIds = {1, 2, 3, 4, 5, 6, 7, 8, 9, 10, 11, 12, 13}
   SparseIds = {1, 2, 3, 4, 5, 6}
   XP = "respect"
-  Strict = FALSE
+  Strict = "none"
   Emit = TRUE
 INVARIANTS EmitInv
 CHECK_DEADLOCK FALSE
